@@ -394,6 +394,13 @@ SYN_TYPES = {
     "f": (Fraction(1, 2), 0.94),   # massive spin 1/2
     "S": (Fraction(0), 0.14),      # spin 0
 }
+# higher spins (HARDENING rule 5); used one at a time next to S / f
+SYN_HIGH = {
+    "D": (Fraction(3, 2), 1.23),   # massive spin 3/2
+    "T": (Fraction(2), 1.27),      # massive spin 2
+    "F": (Fraction(5, 2), 1.68),   # massive spin 5/2
+}
+SYN_ALL = {**SYN_TYPES, **SYN_HIGH}
 
 
 def _projections(spin: Fraction, mass: float):
@@ -417,9 +424,11 @@ def synthetic_topologies():
     return out
 
 
-def synthetic_reaction(topology, types):
+def synthetic_reaction(topology, types, j0_extra: int = 0, minimal: bool = False):
     """hand-built single-topology reaction: every helicity combination with |l1 - l2| <= J at every
-    node (so every helicity set is complete); resonance spins are the smallest that allow it"""
+    node. Default: resonance/initial spins 0, 1/2 or 1 by a fixed rule. `minimal`: every decaying
+    state gets the smallest spin |s1 - s2| for which all helicities of both children occur (complete
+    helicity sets at low cost), the initial state `j0_extra` units more (initial spins 0, 1/2, 1, 3/2, ...)."""
     import itertools
 
     from qrules.particle import Particle
@@ -430,7 +439,7 @@ def synthetic_reaction(topology, types):
     (root,) = topology.incoming_edge_ids
     spin, mass = {}, {}
     for i, t in enumerate(types):
-        spin[i], mass[i] = SYN_TYPES[t]
+        spin[i], mass[i] = SYN_ALL[t]
 
     def fill(edge):
         node = topology.edges[edge].ending_node_id
@@ -438,7 +447,9 @@ def synthetic_reaction(topology, types):
             return int(2 * spin[edge])
         kids = sorted(topology.get_edge_ids_outgoing_from_node(node))
         tot = [fill(k) for k in kids]
-        if sum(tot) % 2:
+        if minimal:
+            spin[edge] = abs(spin[kids[0]] - spin[kids[1]]) + (j0_extra if edge == root else 0)
+        elif sum(tot) % 2:
             spin[edge] = Fraction(1, 2)
         else:
             spin[edge] = Fraction(0) if all(spin[k] == 0 for k in kids) else Fraction(1)
@@ -480,12 +491,32 @@ def synthetic_cases():
         for a, b in itertools.permutations(range(n), 2):
             types = ["S"] * n
             types[a], types[b] = "nu", "V"
-            cases.append((f"syn{key}:" + ",".join(types), key, tuple(types), True))
+            cases.append((f"syn{key}:" + ",".join(types), key, tuple(types), True, {}))
             seen.add((key, tuple(types)))
     for key in ("3:spect0", "3:spect1", "3:spect2"):
         for types in itertools.product(SYN_TYPES, repeat=3):
             if (key, types) not in seen:
-                cases.append((f"syn{key}:" + ",".join(types), key, types, False))
+                cases.append((f"syn{key}:" + ",".join(types), key, types, False, {}))
+    # higher spins 3/2, 2, 5/2 in every slot of every spectator choice, next to spin 0 / spin 1/2,
+    # with minimal-complete resonance spins and initial spins j0 and j0 + 1
+    for key in ("3:spect0", "3:spect1", "3:spect2"):
+        for slot in range(3):
+            for high in SYN_HIGH:
+                for other in ("S", "f"):
+                    types = [other] * 3
+                    types[slot] = high
+                    if other == "f":
+                        types[(slot + 1) % 3] = "S"
+                    for extra in (0, 1):
+                        cases.append((f"syn{key}:" + ",".join(types) + f":min+{extra}", key, tuple(types), False,
+                                      {"minimal": True, "j0_extra": extra}))
+    # minimal-complete variants of the low-spin types: initial spins 0 / 1/2 (and +1), equal masses (S,S), (f,f), (V,V)
+    for key in ("3:spect0", "3:spect1", "3:spect2"):
+        for types in (("S", "f", "f"), ("f", "f", "S"), ("V", "V", "S"), ("S", "V", "V"), ("f", "S", "V"), ("nu", "nu", "S"),
+                      ("V", "f", "S"), ("f", "V", "f")):
+            for extra in (0, 1):
+                cases.append((f"syn{key}:" + ",".join(types) + f":min+{extra}", key, types, False,
+                              {"minimal": True, "j0_extra": extra}))
     return cases
 
 
@@ -1046,10 +1077,11 @@ class C05Property:
         syn_tops = synthetic_topologies()
         syn_cases = synthetic_cases()
         syn_reactions = {}
+        syn_opts = {c[0]: c[4] for c in syn_cases}
         syn_compared = 0
-        for name, key, types, mixed in syn_cases:
+        for name, key, types, mixed, opts in syn_cases:
             try:
-                reaction = synthetic_reaction(syn_tops[key], types)
+                reaction = synthetic_reaction(syn_tops[key], types, **opts)
             except Exception as e:  # noqa: BLE001
                 raise common.InfraError(f"synthetic reaction {name} cannot be built: {e!r}") from e
             syn_reactions[name] = (reaction, classify(reaction), key, types, mixed)
@@ -1187,7 +1219,7 @@ class C05Property:
             c = 1
             for i, t in enumerate(types):
                 d = depth_of(syn_tops[key], i)
-                c *= int(2 * SYN_TYPES[t][0] + 1) ** (d + 1 if d >= 2 else 1)
+                c *= int(2 * SYN_ALL[t][0] + 1) ** (d + 1 if d >= 2 else 1)
             return c
 
         mixed4 = [n for n in mixed4 if cost(n) <= 250]
@@ -1200,7 +1232,8 @@ class C05Property:
         for n in chosen:
             reaction, cls, key, types, _ = syn_reactions[n]
             jobs.append(({"name": n, "file": None, "synthetic": {"topology": tree_string(syn_tops[key]), "types": list(types),
-                                                               "how": "tools.props.C05.synthetic_reaction(synthetic_topologies()[key], types)"}},
+                                                               "options": syn_opts.get(n, {}),
+                                                               "how": "tools.props.C05.synthetic_reaction(synthetic_topologies()[key], types, **options)"}},
                          reaction, cls))
         oracle_t0 = _time.time()
         skipped_budget = []
